@@ -148,6 +148,11 @@ impl World {
         self.log.0.lock().unwrap().clone()
     }
 
+    /// the frames of `log` from `from` on, in the order the observer received them
+    pub fn snapshot_ref_after<'a>(&self, log: &'a [Frame], from: Scru128Id) -> Vec<&'a Frame> {
+        log.iter().skip_while(|f| f.id != from).collect()
+    }
+
     /// Wait until a frame satisfying `pred` is in the log (returns the first such frame).
     pub fn wait(&self, pred: impl Fn(&Frame) -> bool, secs: f64) -> Option<Frame> {
         let (m, cv) = &*self.log;
